@@ -8,6 +8,7 @@ from typing import List
 from harness.lib.core import VERIF, Ctx, lean_lock, run_driver, shrink_ops
 from harness.extract import filesystem as x_fs
 from harness.extract import fsxlate as x_fsm
+from harness.extract import filesystem_node as x_fsn
 from harness.rigs import filesystem as rig
 
 MANIFEST = {
@@ -34,13 +35,16 @@ MANIFEST = {
     "technique": "Lean 4 invariant proof over an executable file-system model; model tied by regenerated tables and a differential rig",
     "design_ref": "5/C15",
 }
-MODULES = ["PrimaiteModel.Props.C15", "PrimaiteModel.Props.C15Api"]
+MODULES = ["PrimaiteModel.Props.C15", "PrimaiteModel.Props.C15Api", "PrimaiteModel.Props.C15Node"]
 EXE = "drv_c15"
 
 
+H = rig.HEAD  # protocol lines before the first operation
+
+
 def _run_case(case: dict):
-    impl, verdicts = rig.run_impl(case)
-    return impl, verdicts, rig.model_lines(case)
+    impl, verdicts, flags = rig.run_impl(case)
+    return impl, verdicts, rig.model_lines(case, flags)
 
 
 def _diff_case(case: dict):
@@ -59,6 +63,8 @@ def _op_sig(op: list) -> dict:
         sig["force"] = bool(op[3])
     if k in ("fverb", "xverb", "sverb"):
         sig["verb"] = op[-1]
+    if k == "power":
+        sig["key"] = op[1]
     return sig
 
 
@@ -80,15 +86,15 @@ def _report(ctx: Ctx, name: str, case: dict):
     if ok:
         small = case
         ok, ci, cm, i, lines, verdicts, bo = _diff_case(small)
-    if bo != -1 and (i == -1 or bo <= i - 2):
+    if bo != -1 and (i == -1 or bo <= i - H):
         op = small["ops"][bo]
         sig = dict(_op_sig(op), kind="oracle", clause=verdicts[bo][0], surface=small["surface"])
         what = f"C15 oracle fails on the implementation after op {bo} {op}: {verdicts[bo]}"
     else:
-        op = small["ops"][i - 2] if i >= 2 else ["?"]
+        op = small["ops"][i - H] if i >= H else ["?"]
         sig = dict(_op_sig(op), kind="model-vs-impl", surface=small["surface"],
                    field="status" if ci[i].split(" | ")[0] != cm[i].split(" | ")[0] else "state")
-        what = (f"file system differs from the proved model at op {i - 2} {op}: impl={ci[i]!r} model={cm[i]!r}")
+        what = (f"file system differs from the proved model at op {i - H} {op}: impl={ci[i]!r} model={cm[i]!r}")
     ctx.violation(sig, what, {"case": small, "lines": lines, "impl": ci, "model": cm, "first_diff": i, "oracle": verdicts, "from": name})
 
 
@@ -96,6 +102,7 @@ def run(ctx: Ctx):
     with lean_lock():
         ctx.extract(x_fs.GEN_NAME, x_fs.emit)
         ctx.extract(x_fsm.GEN_NAME, x_fsm.emit)
+        ctx.extract(x_fsn.GEN_NAME, x_fsn.emit)
         ctx.prove(MODULES, exes=[EXE], clean=False, leanchecker=ctx.thorough)
     ctx.cov["rule"] = ("case = (surface in {FileSystem.apply_request, Simulation.apply_request under a node, agent-action form_request}, "
                        "folder restore duration in {None,0,1,2,3}, operation sequence); after EVERY operation the response status and the "
@@ -125,6 +132,16 @@ def run(ctx: Ctx):
         rng3 = ctx.rng.fork("fs-churn")
         for k in range(ctx.scale(1200, 10000)):
             yield f"churn:{k}", rig.gen_churn_case(rng3)
+        # node level: a real computer in a small network, power requests interleaved with file operations
+        depth = ctx.scale(3, 4)
+        for c, cfg in enumerate(rig.node_configs()):
+            ctx.count(f"exhaustive:N:alphabet={len(rig.node_alphabet())}:depth={depth}:up={cfg['up']}:down={cfg['down']}",
+                      len(rig.node_alphabet()) ** depth)
+            for k, ops in enumerate(rig.exhaustive(rig.node_alphabet(), depth)):
+                yield f"exhN{depth}:{c}:{k}", {"surface": "net", "restore_duration": 1, "node": dict(cfg, actions=bool(k % 2)), "ops": ops}
+        rng4 = ctx.rng.fork("fs-net")
+        for k in range(ctx.scale(700, 12000)):
+            yield f"net:{k}", rig.gen_net_case(rng4, max_ticks=ctx.scale(10, 14))
 
     state = {"agree": 0, "total": 0, "reported": 0, "t_impl": 0.0, "t_model": 0.0}
 
@@ -149,8 +166,8 @@ def run(ctx: Ctx):
             ctx.cov["traces_validated_against_impl"] += 1
             state["total"] += 1
             ci, cm = rig.canon(impl), rig.canon(model)
-            statuses = [m.split(" | ")[0] for m in cm[2:]]
-            has_deleted = any(":1:" in m or ":1)" in m or ":1," in m for m in cm[2:])
+            statuses = [m.split(" | ")[0] for m in cm[H:]]
+            has_deleted = any(":1:" in m or ":1)" in m or ":1," in m for m in cm[H:])
             ctx.case(case, has_deleted and any(s in ("failure", "unreachable") for s in statuses))
             ctx.count("surface:" + case["surface"])
             n = len(case["ops"])
@@ -161,7 +178,7 @@ def run(ctx: Ctx):
             if ci == cm and not any(verdicts):
                 state["agree"] += 1
                 if name.startswith("gen"):
-                    ctx.sample({"case": name, "surface": case["surface"], "lines": lines_all[st + 2:st + 10], "answers": cm[2:10]}, cap=3)
+                    ctx.sample({"case": name, "surface": case["surface"], "lines": lines_all[st + H:st + H + 8], "answers": cm[H:H + 8]}, cap=3)
                 continue
             if state["reported"] < 5:  # shrink and report the first few; the rest are counted
                 state["reported"] += 1
